@@ -857,7 +857,10 @@ def _composite_read_after_branch_that_assigned_it(minsrc: str, fname: str, node_
                     base = base.value
                 if isinstance(base, ast.Name) and base.id in roots:
                     return True
-    return False
+    # `c8['a']['b']` where c8 = {'a': {'b': x0[1]}} was built AFTER the compound statement: the part read out of c8
+    # holds what the read of x0[1] produced, so each root is followed through its own EARLIER assignments like a bare
+    # name (strictly earlier lines, so that `c = c[0]` cannot send the search round in a circle)
+    return any(_composite_read_after_branch_that_assigned_it(minsrc, fname, r, lineno - 1) for r in sorted(roots))
 
 
 def _flows_from_item_assigned_container(minsrc: str, fname: str, entry: str, params, args, minkey: str, node_src: str, lineno) -> bool:
